@@ -183,6 +183,15 @@ def run_unit(unit, repo, verif, tier='quick', canary=True, workdir=None):
     res['assumption_scan'] = scan_assumptions(text)
     res['clauses'] = count_clauses(text, info['fn_spans'])
     rl = 40 if tier == 'quick' else 160
+    # the vacuity-guard run (same text + assert(false) canaries) is independent of the main run: start both at once
+    cfut = None
+    if canary:
+        import concurrent.futures
+        ctext, cinfo = build_unit(tpl, repo, verif, canary=True)
+        cpath = os.path.join(bdir, unit + '_canary.rs')
+        open(cpath, 'w').write(ctext)
+        _ex = concurrent.futures.ThreadPoolExecutor(max_workers=1)
+        cfut = _ex.submit(run_verus, cpath, min(rl, 10))
     r = run_verus(path, rlimit=rl)
     res['checker_cmd'] = r['cmd']
     res['wall'] = r['wall']
@@ -237,11 +246,8 @@ def run_unit(unit, repo, verif, tier='quick', canary=True, workdir=None):
         return res
     # vacuity guard: canaries must all fail
     if canary:
-        ctext, cinfo = build_unit(tpl, repo, verif, canary=True)
         marks = cinfo.get('canaries', [])
-        cpath = os.path.join(bdir, unit + '_canary.rs')
-        open(cpath, 'w').write(ctext)
-        rc = run_verus(cpath, rlimit=min(rl, 10))
+        rc = cfut.result()
         cerrs = parse_errors(rc['stderr'], cpath)
         clines = ctext.split('\n')
         failed = set()
